@@ -125,7 +125,9 @@ class ValueOrList(t.Generic[T]):
 
 class ValueOrListConverter(UnionConverter):
     def __init__(self, ty: t.Type[Convertible], handlers: ConverterHandlers):
-        types = t.cast(t.Sequence[t.Type[Convertible]], (ty, t.List[ty]))
+        # ``list[...]`` rather than ``t.List[...]``: typing caches its subscriptions by ``==``, and
+        # ``Union[A, B] == Union[B, A]``, so ``t.List[ty]`` may come back with the members in another order
+        types = t.cast(t.Sequence[t.Type[Convertible]], (ty, list[(ty,)]))
         super().__init__(types, constructor=lambda v, i: ValueOrList(v, i == 0), handlers=handlers)
         self.ty = ty
 
